@@ -358,6 +358,16 @@ impl<'t, 'a> Gen<'t, 'a> {
                     Tm::Con(c, xs)
                 }
             }
+            Ty::Fun(a, b) if self.cfg.allow_host && **a == Ty::Int && **b == Ty::Int && self.t.chance(1, 4) => {
+                // a host function as a value: aliased, stored, passed on and called indirectly
+                self.uses_host = true;
+                let h = match self.t.pick(6) {
+                    0 if self.cfg.allow_fail => Host::Fail,
+                    1 | 2 => Host::Tick,
+                    _ => Host::Log,
+                };
+                Tm::HostFn(h)
+            }
             Ty::Fun(a, b) => {
                 // lambda, possibly with several parameters when the result is a function too
                 let mut params = vec![];
@@ -1118,7 +1128,41 @@ impl<'t, 'a> Gen<'t, 'a> {
                     _ => Host::Log,
                 };
                 let a = self.inl(&Ty::Int, sc, sub);
-                Tm::Host(h, Box::new(a))
+                // the callee is named directly, or reached through an alias, a record field or a
+                // parameter (the optimiser must treat all of them as effectful)
+                match self.t.pick(6) {
+                    0 if block => {
+                        let r = self.name("v");
+                        let fty = Ty::Fun(Box::new(Ty::Int), Box::new(Ty::Int));
+                        let mut sc2 = sc.clone();
+                        sc2.push(SVar { name: r.clone(), ty: fty.clone() });
+                        // more calls through the alias may follow in the body
+                        let rest = self.tm(goal, &sc2, sub);
+                        let call = Tm::App(Box::new(Tm::Var(r.clone())), vec![a]);
+                        let body = if self.t.chance(1, 2) {
+                            Tm::LetPat(Pat::Wild, Box::new(call), Box::new(rest))
+                        } else {
+                            let _ = rest;
+                            call
+                        };
+                        Tm::Let(
+                            Box::new(FunBind { name: r, params: vec![], ty: Some(fty), body: Tm::HostFn(h) }),
+                            Box::new(body),
+                        )
+                    }
+                    1 => Tm::App(
+                        Box::new(Tm::Proj(Box::new(Tm::Record(vec![("f".into(), Tm::HostFn(h))])), "f".into())),
+                        vec![a],
+                    ),
+                    2 => {
+                        let g = self.name("p");
+                        Tm::App(
+                            Box::new(Tm::Lam(vec![g.clone()], Box::new(Tm::App(Box::new(Tm::Var(g)), vec![a])))),
+                            vec![Tm::HostFn(h)],
+                        )
+                    }
+                    _ => Tm::Host(h, Box::new(a)),
+                }
             }
             13 => {
                 let ty = if self.t.chance(1, 2) {
@@ -1551,6 +1595,13 @@ pub fn features(p: &Program) -> BTreeSet<String> {
             }
             Tm::Error(_) => {
                 f.insert("failure".into());
+            }
+            Tm::HostFn(h) => {
+                f.insert("host_call".into());
+                f.insert("host_function_as_value".into());
+                if *h == Host::Fail {
+                    f.insert("failure".into());
+                }
             }
             Tm::Host(h, a) => {
                 f.insert("host_call".into());
